@@ -872,10 +872,11 @@ func genDDL(r *hx.Rng) ddlCase {
 }
 
 type dbState struct {
-	tags   []string
-	shows  map[string]string
-	hashes map[string]string
-	errs   []string
+	tags      []string
+	shows     map[string]string
+	hashes    map[string]string
+	schHashes map[string]string
+	errs      []string
 }
 
 func applyDDL(s *sqleng.Session, d ddlCase) []string {
@@ -888,12 +889,15 @@ func applyDDL(s *sqleng.Session, d ddlCase) []string {
 }
 
 func snapshot(s *sqleng.Session) (*dbState, error) {
-	st := &dbState{shows: map[string]string{}, hashes: map[string]string{}}
+	st := &dbState{shows: map[string]string{}, hashes: map[string]string{}, schHashes: map[string]string{}}
 	schs, err := qx.WorkingSchemas(s)
 	if err != nil {
 		return nil, err
 	}
 	st.tags = qx.TagLines(schs)
+	if sh, err := qx.SchemaHashes(s); err == nil {
+		st.schHashes = sh
+	}
 	for t := range schs {
 		r := s.Exec(fmt.Sprintf("show create table `%s`", t))
 		if r.Err != nil || len(r.Rows) != 1 {
@@ -908,6 +912,26 @@ func snapshot(s *sqleng.Session) (*dbState, error) {
 	return st, nil
 }
 
+// diffSchemaOnly: tags, SHOW CREATE TABLE and the hash of the stored schema message — what C37 is about.
+// (dolt_hashof_table additionally covers row data, index data and artifacts.)
+func diffSchemaOnly(a, b *dbState) string {
+	if strings.Join(a.tags, ",") != strings.Join(b.tags, ",") {
+		return fmt.Sprintf("column tags differ: %v vs %v", a.tags, b.tags)
+	}
+	for t, s := range a.shows {
+		if b.shows[t] != s {
+			return fmt.Sprintf("SHOW CREATE TABLE %s differs: %q vs %q", t, s, b.shows[t])
+		}
+		if a.schHashes[t] != b.schHashes[t] {
+			return fmt.Sprintf("schema hash of %s differs: %s vs %s", t, a.schHashes[t], b.schHashes[t])
+		}
+	}
+	if len(a.shows) != len(b.shows) {
+		return "different table sets"
+	}
+	return ""
+}
+
 func diffState(a, b *dbState) string {
 	if strings.Join(a.tags, ",") != strings.Join(b.tags, ",") {
 		return fmt.Sprintf("column tags differ: %v vs %v", a.tags, b.tags)
@@ -915,6 +939,9 @@ func diffState(a, b *dbState) string {
 	for t, s := range a.shows {
 		if b.shows[t] != s {
 			return fmt.Sprintf("SHOW CREATE TABLE %s differs: %q vs %q", t, s, b.shows[t])
+		}
+		if a.schHashes[t] != b.schHashes[t] {
+			return fmt.Sprintf("schema hash of %s differs: %s vs %s", t, a.schHashes[t], b.schHashes[t])
 		}
 		if a.hashes[t] != b.hashes[t] {
 			return fmt.Sprintf("dolt_hashof_table(%s) differs: %s vs %s", t, a.hashes[t], b.hashes[t])
@@ -1025,8 +1052,13 @@ func runDDL(e *hx.Env, d ddlCase) {
 			}
 			st, err := snapshot(s)
 			if err == nil {
-				if df := diffState(bst[0], st); df != "" {
+				if df := diffSchemaOnly(bst[0], st); df != "" {
 					e.Rep.Violate("ddl/merge-result", "merge of identical DDL changed the schema: "+df, d)
+				} else if diffState(bst[0], st) != "" {
+					// same tags, same SHOW CREATE TABLE, same schema hash, but dolt_hashof_table changed:
+					// outside C37 (row/index data of the merged table), recorded as an observation
+					e.Rep.Hit("ddl:merge-changes-table-hash-only")
+					e.Rep.Note("merge of two branches with identical DDL left the schema untouched but changed dolt_hashof_table: " + diffState(bst[0], st) + " :: " + strings.Join(d.Stmts, "; "))
 				}
 			}
 		}
